@@ -52,6 +52,11 @@ func checkC12(c *Ctx) {
 		r.Undecided("C12.authorised", "role", "-", "no refund function (mint + pool delete) found")
 		return
 	}
+	isRefund := map[*ssa.Function]bool{}
+	for _, f := range rfs {
+		isRefund[f] = true
+	}
+	c.checkUnitsIn("C12.amount", reach, func(f *ssa.Function) bool { return isRefund[f] })
 	for _, f := range rfs {
 		effs := c.Effects(f)
 		var mint *Eff
